@@ -8,6 +8,7 @@ import (
 	"context"
 	"errors"
 	"fmt"
+	"math/rand"
 	"os"
 	"strings"
 	"sync"
@@ -22,6 +23,11 @@ import (
 type MultiCfg struct {
 	Size []int `json:"size"` // instances per replication set (global numbering, set by set)
 	Tol  []int `json:"tol"`  // MaxErrors per set
+	// Done: callbacks may call the CancelCauseFunc they were given (environment step "done"): in-flight tracker
+	Done bool `json:"done"`
+	// Shared: every set has one instance and all sets are views of the SAME backing array (identical *InstanceDesc):
+	// the k-th invocation of f is numbered k (the sets are interchangeable: equal size and tolerance)
+	Shared bool `json:"shared"`
 }
 
 type MultiTrace struct {
@@ -44,7 +50,12 @@ type multiRun struct {
 	retCh    chan Ret
 	ret      *Ret
 	canceled bool
+	cancels  []context.CancelCauseFunc // the CancelCauseFunc handed to each invocation
+	doneCb   []bool
+	next     int
 }
+
+var errCb = errors.New("verif: callback is done with its context")
 
 func (r *multiRun) start(preCancel bool) {
 	n := 0
@@ -57,14 +68,22 @@ func (r *multiRun) start(preCancel bool) {
 	r.finished = make([]bool, n+1)
 	r.cleaned = make([]int, n+1)
 	r.gates = make([]chan string, n+1)
+	r.cancels = make([]context.CancelCauseFunc, n+1)
+	r.doneCb = make([]bool, n+1)
 	for i := 1; i <= n; i++ {
 		r.gates[i] = make(chan string, 1)
 	}
 	r.retCh = make(chan Ret, 1)
 	var sets []ring.ReplicationSet
 	next := 1
+	shared := []ring.InstanceDesc{{Id: "i-1", Addr: "addr-1"}}
 	for k, sz := range r.cfg.Size {
 		rs := ring.ReplicationSet{MaxErrors: r.cfg.Tol[k]}
+		if r.cfg.Shared {
+			rs.Instances = shared
+			sets = append(sets, rs)
+			continue
+		}
 		for j := 0; j < sz; j++ {
 			rs.Instances = append(rs.Instances, ring.InstanceDesc{Id: fmt.Sprintf("i-%d", next), Addr: fmt.Sprintf("addr-%d", next)})
 			next++
@@ -77,12 +96,20 @@ func (r *multiRun) start(preCancel bool) {
 		cancel(errParent)
 		r.canceled = true
 	}
-	f := func(ctx context.Context, d *ring.InstanceDesc, _ context.CancelCauseFunc) (int, error) {
+	f := func(ctx context.Context, d *ring.InstanceDesc, cancel context.CancelCauseFunc) (int, error) {
 		i := instIndex(d)
 		r.mu.Lock()
+		if r.cfg.Shared {
+			r.next++
+			i = r.next
+			if i > n { // more invocations than instances: count it against the last one
+				i = n
+			}
+		}
 		r.calls[i]++
 		if r.ctxs[i] == nil {
 			r.ctxs[i] = ctx
+			r.cancels[i] = cancel
 		}
 		r.mu.Unlock()
 		if o := <-r.gates[i]; o == "err" {
@@ -129,9 +156,15 @@ func (r *multiRun) start(preCancel bool) {
 }
 
 func multiCtxClass(ctx context.Context) string {
+	if ctx != nil && ctx.Err() != nil && context.Cause(ctx) == errCb {
+		return "cb"
+	}
 	c := ctxClass(ctx)
 	if strings.HasPrefix(c, "other:") && strings.Contains(c, "quorum was not reached in another replication set") {
 		return "otherSet"
+	}
+	if c == "other:all requests completed" {
+		return "completed"
 	}
 	return c
 }
@@ -171,6 +204,13 @@ func (r *multiRun) options(last Step) []Step {
 			}
 		}
 	}
+	if r.cfg.Done {
+		for i := 1; i <= r.n; i++ {
+			if last.Calls[i-1] > 0 && !r.doneCb[i] {
+				out = append(out, Step{A: "done", I: i})
+			}
+		}
+	}
 	if !returned && !r.canceled {
 		out = append(out, Step{A: "cancel"})
 	}
@@ -185,6 +225,15 @@ func (r *multiRun) do(s Step) error {
 		}
 		r.finished[s.I] = true
 		r.gates[s.I] <- s.O
+	case "done":
+		r.mu.Lock()
+		cancel := r.cancels[s.I]
+		r.mu.Unlock()
+		if s.I < 1 || s.I > r.n || r.doneCb[s.I] || cancel == nil {
+			return fmt.Errorf("done of instance %d not possible", s.I)
+		}
+		r.doneCb[s.I] = true
+		cancel(errCb)
 	case "cancel":
 		r.canceled = true
 		r.cancel(errParent)
@@ -221,6 +270,47 @@ func multiCfgs(thorough bool) []MultiCfg {
 		}
 		rec(0, nil)
 	}
+	// in-flight tracker: callbacks release their contexts at any point of the schedule. One set (delegation to the
+	// inner call, no tracker), two sets of one instance; sets sharing their instances (equal tolerances)
+	for _, sh := range [][]int{{1}, {2}, {1, 1}} {
+		for _, tol := range tolVectors(sh, 2) {
+			out = append(out, MultiCfg{Size: sh, Tol: tol, Done: true})
+		}
+	}
+	for _, t := range []int{0, 1} {
+		out = append(out, MultiCfg{Size: []int{1, 1}, Tol: []int{t, t}, Done: true, Shared: true})
+		if thorough {
+			out = append(out, MultiCfg{Size: []int{1, 1, 1}, Tol: []int{t, t, t}, Done: true, Shared: true})
+		}
+	}
+	return out
+}
+
+func tolVectors(sh []int, maxTol int) [][]int {
+	var out [][]int
+	var rec func(k int, tol []int)
+	rec = func(k int, tol []int) {
+		if k == len(sh) {
+			out = append(out, append([]int(nil), tol...))
+			return
+		}
+		for t := 0; t <= sh[k] && t <= maxTol; t++ {
+			rec(k+1, append(tol, t))
+		}
+	}
+	rec(0, nil)
+	return out
+}
+
+// multiSampleCfgs: larger shapes explored by seeded random schedules with the "done" steps enabled.
+func multiSampleCfgs() []MultiCfg {
+	var out []MultiCfg
+	for _, sh := range [][]int{{2, 1}, {1, 2}, {1, 1, 1}, {2, 2}, {2, 1, 1}} {
+		for _, tol := range tolVectors(sh, 1) {
+			out = append(out, MultiCfg{Size: sh, Tol: tol, Done: true})
+		}
+	}
+	out = append(out, MultiCfg{Size: []int{1, 1, 1}, Tol: []int{0, 0, 0}, Done: true, Shared: true})
 	return out
 }
 
@@ -284,6 +374,25 @@ func TestRecordMulti(t *testing.T) {
 				}
 				path = append(path[:k:k], path[k]+1)
 			}
+		}
+	}
+	// sampled part: seeded random schedules over larger shapes (3 sets, 2 instances per set) with "done" steps
+	rng := rand.New(rand.NewSource(abs.Seed()))
+	sc := multiSampleCfgs()
+	for k := 0; k < abs.EnvInt("VERIF_MULTI_SAMPLES", 0); k++ {
+		cfg := sc[rng.Intn(len(sc))]
+		steps, leak := exploreWith(t, func() driver { return &multiRun{cfg: cfg} }, false, func(depth int, opts []Step) int { return rng.Intn(len(opts)) })
+		id++
+		tr := MultiTrace{ID: id, Cfg: cfg, Steps: steps}
+		if err := w.Write(tr); err != nil {
+			res.Fatal = err.Error()
+		}
+		res.Cases++
+		if isNontrivial(steps) {
+			res.Nontrivial++
+		}
+		if leak != "" {
+			res.Mismatch(abs.Mismatch{Sig: "multi: goroutines left blocked after every call finished", Case: tr, Got: leak, Want: "all goroutines of the call terminate"})
 		}
 	}
 	res.AddExtra("multi_traces_recorded", id)
